@@ -257,8 +257,13 @@ def declare(reg):
             }},
         },
         locals_={"to_delete": "list[int]", "uids_to_delete": "list[int]", "new_to_delete": "list[int]", "new_uids_to_delete": "list[int]"},
-        props=["C05", "C03", "C02", "C13"],
-        ghost={"harness": "harness.mboxops:Expunge"},
+        props=["C05", "C03", "C02", "C13", "C01"],
+        ghost={"harness": "harness.mboxops:Expunge", "call_asserts": {"_dispatch_or_pend_notifications": {
+            # C01: every `* n EXPUNGE` names a position that exists in the list the sessions have replayed so far
+            # (the list before this deletion had len(msg_keys)+1 entries), highest first
+            "expunge-number-exists": "1 <= which + 1 and which + 1 <= len(self.msg_keys) + 1",
+            "expunge-text": "expunge_msg == '* ' + str(which + 1) + ' EXPUNGE\\r\\n'",
+        }}},
     )
     b = reg.properties.setdefault("C05", {}).setdefault("bounded", [])
     b.append({"name": "expunge-real-folder", "module": "harness.mboxops", "func": "Expunge"})
@@ -353,8 +358,12 @@ def declare(reg):
             5: {"invariant": {}},
         },
         locals_={"new_msgs": "dict[int,opaque:EmailMessage]", "notifications": "list[str]", "msg_sequences": "set[str]", "msg_seqs": "defaultdict[str,set[int]]"},
-        props=["C02", "C13"],
-        ghost={"harness": "harness.mboxops:Resync"},
+        props=["C02", "C13", "C01"],
+        ghost={"harness": "harness.mboxops:Resync", "call_asserts": {"push": {
+            # C01: the new message count is announced directly only to a session with nothing queued (or idling);
+            # otherwise it is queued *behind* the pending EXPUNGEs (the count already has them applied)
+            "exists-not-ahead-of-queued-expunges": "len(c.pending_notifications) == 0 or c.idling",
+        }}},
     )
     for pid in ("C02", "C13"):
         reg.properties.setdefault(pid, {}).setdefault("bounded", []).append(
@@ -364,6 +373,8 @@ def declare(reg):
     for pid in ("C01", "C04"):
         reg.properties.setdefault(pid, {}).setdefault("bounded", []).append(
             {"name": "dispatch-or-pend", "module": "harness.notify", "func": "Dispatch"})
+    reg.properties.setdefault("C01", {}).setdefault("bounded", []).append(
+        {"name": "view-replay-e2e", "module": "harness.e2e", "func": "ViewReplay"})
 
     # ---- copy(): the message-set expansion only (C15 e) ----------------------------------
     reg.contract(
